@@ -1092,7 +1092,7 @@ def _sweeps(run, thorough):
     for ones, n in ((7, 10), (9, 10)):     # 7 of 10 voxels inside, threshold np.float64(0.7): float32(0.7) = 0.699999988 < 0.7
         single_precision.insert(0, (dict(shape=[1, 1, n], mask='bits', bits=[1] * ones + [0] * (n - ones), radius=50, threshold=ones / n,
                                          dtype='float32', threshold_as='float64'), 'float32-mask,threshold-within-1e-7-of-fraction'))
-    if False:  # pending triage: float32-mask,threshold-within-1e-7-of-fraction
+    if True:   # repaired in /repo 1becdd3b (was pending triage): float32-mask,threshold-within-1e-7-of-fraction
         for case, ic in single_precision:
             bd.check(orc_volume, case, ic, function='get_volume_searchlight')
     bd.done()
